@@ -279,4 +279,44 @@ example : ∃ out, mapPipeline exTree { dropLevel := some 1, flatten := true, ch
       [7, 3, 9] [0, 1, 2] [1, 0] (by rfl) rfl (by decide) exTree_wf (exVote_ok _) rfl
       (by decide) (by decide) (by decide) (by decide)
 
+/-- "for ... any chunk size, any worker count": HOW the rows are cut into chunks
+is immaterial.  For ANY borders that tile the rows (consecutive, non-empty,
+ending at the last row — `tilesB`, checked on the borders the workers are
+really handed) and any gathering order, the pipeline is the per-cell map in obs
+order with each cell's id.  (The clamp `effChunk` of the present code is one
+instance: `chunks_tile`.) -/
+theorem order_ids_any_chunks {κ} (t0 t : RawTree) (cfg : Config) (vote : Oracle κ)
+    (ids : List CellId) (cells : List κ) (borders : List (Nat × Nat)) (order : List Nat)
+    (hrun : runTree t0 cfg = .ok t) (hwf : wfb t = true) (hv : VoteOK t vote)
+    (hlen : ids.length = cells.length) (hnd : ids.Nodup)
+    (htiles : tilesB cells.length borders = true)
+    (horder : order.Perm (List.range borders.length)) :
+    mapPipelineChunks t0 cfg vote ids cells borders order =
+      backfill t0.dropCells
+        ((List.zipWith (mkRecord t vote) ids cells).map (markDirect t.hierarchy)) :=
+  mapPipelineChunks_spec t0 t cfg vote ids cells borders order hrun hwf hv hlen hnd htiles horder
+
+example : mapPipelineChunks exTree {} exVote [7, 3, 9, 4] [0, 1, 2, 3] [(0, 1), (1, 4)] [1, 0] =
+    mapPipelineChunks exTree {} exVote [7, 3, 9, 4] [0, 1, 2, 3] [(0, 2), (2, 3), (3, 4)] [2, 0, 1] := by
+  rw [order_ids_any_chunks exTree exTree {} exVote [7, 3, 9, 4] [0, 1, 2, 3] [(0, 1), (1, 4)] [1, 0]
+      rfl exTree_wf (exVote_ok _) rfl (by decide) (by decide) (by decide),
+    order_ids_any_chunks exTree exTree {} exVote [7, 3, 9, 4] [0, 1, 2, 3]
+      [(0, 2), (2, 3), (3, 4)] [2, 0, 1] rfl exTree_wf (exVote_ok _) rfl (by decide) (by decide)
+      (by decide)]
+
+/-- the borders the present code uses (row iterator at the clamped chunk size)
+are such a tiling, and `mapPipeline` is `mapPipelineChunks` on them -/
+theorem chunks_tile {κ} (t0 : RawTree) (cfg : Config) (vote : Oracle κ)
+    (ids : List CellId) (cells : List κ) (order : List Nat)
+    (hproc : 1 ≤ cfg.nProc) (hcs : 1 ≤ cfg.chunkSize) :
+    tilesB cells.length (chunks cells.length (effChunk cells.length cfg.nProc cfg.chunkSize)) = true ∧
+    mapPipeline t0 cfg vote ids cells order =
+      mapPipelineChunks t0 cfg vote ids cells
+        (chunks cells.length (effChunk cells.length cfg.nProc cfg.chunkSize)) order :=
+  ⟨chunks_tiles _ _ (effChunk_pos hcs),
+   mapPipeline_eq_chunks t0 cfg vote ids cells order hproc hcs⟩
+
+example : tilesB 23 (chunks 23 (effChunk 23 2 7)) = true ∧ tilesB 23 [(0, 6), (6, 12), (12, 18), (18, 23)] = true := by
+  decide
+
 end CTM.C01
